@@ -100,6 +100,17 @@ CLAIMED = {
          'Shortest-path optimality of the Floyd-Warshall model is not proved (model compared with networkx per case); descriptors and '
          'measure names are checked by the Python oracle; invariance on the implementation is a supporting test.',
          'DESIGN.md section 7, C17'),
+ 'C19': ('Coq proofs over Z/nat about the searchlight model (neighbour set = sphere, linear-index bijection, chunk partition) + '
+         'in-Coq correspondence of get_volume_searchlight / get_searchlight_RDMs incl. the >1000-centre branch',
+         'Theorems (axiom-free): for every volume, centre and positive rational radius the coded neighbour computation (per-axis '
+         'prefilter then distance test) yields exactly the in-volume voxels at distance strictly below the radius; accepted centres '
+         'are exactly the mask voxels passing the fraction test; ravel/unravel is a bijection onto [0,XYZ); for EVERY nondecreasing '
+         'boundary sequence the chunks are consecutive and cover each centre once. Correspondence: all centres of random masks in '
+         'volumes up to 4x4x4 with five radii and four thresholds, RDMs of the searchlights against the estimator model, the chunked '
+         'branch with 1331 centres and int16 data.',
+         'joblib scheduling is outside the model (n_jobs 1 vs 2 compared as a supporting test); binary masks only (as documented); '
+         'radii k/2 only; the per-searchlight RDM relies on the C01 model.',
+         'DESIGN.md section 7, C19'),
 }
 NA_REASON = 'check not built yet in this round (work in progress; see DESIGN.md section 7)'
 
